@@ -280,6 +280,14 @@ mod order {
         let mut cfg = config(bind, he);
         cfg.happy_eyeballs_timeout = if he { Some(Duration::from_secs(20)) } else { None };
         cfg.happy_eyeballs_concurrency = None; // every candidate is started in the first poll, in plan order
+        let layer = if layer == "first" {
+            // one attempt at a time: with every candidate accepting, the only connection that is ever started is the head of the
+            // resulting order ("connection attempts are started in the resulting order", observed where it is decided)
+            cfg.happy_eyeballs_concurrency = Some(1);
+            "order"
+        } else {
+            layer
+        };
         let n = list.len();
         let (panicked, conn): (bool, Option<Box<dyn std::any::Any>>) = if layer == "call" {
             use tower::ServiceExt as _;
@@ -346,7 +354,10 @@ mod order {
         let (mut n, mut unstable) = (0usize, 0usize);
         for list in lists.iter().filter(|l| !l.is_empty()) {
             for bind in ["none", "v4", "v6", "both"] {
-                for (he, layer) in [(true, "order"), (false, "order"), (true, "call"), (false, "call")] {
+                for (he, layer) in [(true, "order"), (false, "order"), (true, "call"), (false, "call"), (true, "first")] {
+                    if layer == "first" && list.len() < 2 {
+                        continue;
+                    }
                     // the arrival order is the observation; it is only used when three runs agree
                     let mut runs = vec![];
                     for _ in 0..3 {
@@ -362,7 +373,7 @@ mod order {
                             let v = json!({"list": list.iter().map(|x| json!({"f": x.0, "t": x.1})).collect::<Vec<_>>(), "bind": bind, "he": he, "port": runs[0].1});
                             // re-run only a COMPLETE arrival sequence in an unexpected order (a possible reordering by the
                             // kernel); missing connections are not a matter of ordering
-                            if mirror(&v, &runs[0].0) || runs[0].0.len() != list.len() {
+                            if layer == "first" || mirror(&v, &runs[0].0) || runs[0].0.len() != list.len() {
                                 break;
                             }
                         }
